@@ -1,6 +1,6 @@
 """Synthetic chain builder used by witnesses and bounded stand-ins: real datatypes, real CoinState, real wallet keys.
 Blocks are built by the repository's own construct_block_for_mining (scrypt replaced by sha256 in this process)."""
-import _common
+from . import _common
 _common.fast_scrypt()
 import ecdsa, hashlib
 from skepticoin.coinstate import CoinState
